@@ -6,6 +6,7 @@
 //! * [`report`]    violations, signatures, known findings, evidence, replay files
 
 pub mod enumerate;
+pub mod loomrun;
 pub mod report;
 pub mod sched;
 pub mod search;
